@@ -85,6 +85,7 @@ func runC02(c *Check, rng *rand.Rand) {
 		}(i, cf)
 	}
 	wg.Wait()
+	c02timeout(c, c.Seed+31)
 	c.MinEvals = 500
 }
 
@@ -575,4 +576,59 @@ func c02stopAndGo(c *Check, env *Env, script *Script, seed int64, name string) {
 		c.Count("reply_bytes_compared", int64(len(replies[i])))
 	}
 	script.Forget(keys...)
+}
+
+// c02timeout: with a request timeout configured a stalled request is answered with the
+// timeout error; the requests after it, and the ones sent after the backend's late
+// reply has arrived, still get exactly their own backend's bytes.
+func c02timeout(c *Check, seed int64) {
+	env, err := NewEnv(EnvOpt{Masters: 4, Cfg: ProxyCfg{Timeout: 300}})
+	must(err, "start env")
+	defer env.Close()
+	script := NewScript()
+	env.Cl.SetHandler(script.Handler)
+	rng := rand.New(rand.NewSource(seed))
+	for round := 0; round < c.Pick(4, 60) && env.P.Alive(); round++ {
+		cl, err := env.Dial()
+		must(err, "dial")
+		stallNode := env.T.Nodes[round%4]
+		stalled := Key(slotOf(stallNode, rng), newToken("ts"))
+		g := NewGate()
+		script.Plan(stalled).Gate = g
+		cl.Send(Req("GET", stalled))
+		cl.WaitReplies(1, 4*time.Second) // the timeout error
+		got := 1
+		verify := func(phase string, n int) {
+			for k := 0; k < n; k++ {
+				tok := newToken("tb")
+				other := env.T.Nodes[(round+1+k%3)%4]
+				key := Key(slotOf(other, rng), tok)
+				reply := genReply(rng, 0, 0)
+				script.Plan(key).Act = func(*BReq) Action { return Action{Reply: reply} }
+				raw := Req("GETSET", key, "x")
+				cl.Send(raw)
+				got++
+				c.Eval(1)
+				c.Distinct(fmt.Sprintf("timeout|%s|%c", phase, reply[0]))
+				if !cl.WaitReplies(got, 5*time.Second) {
+					c.Violate(Violation{Class: "no-reply", Shape: "after-timeout/" + phase, Detail: "request after a timed-out one got no reply", Witness: map[string]interface{}{"request": Q(raw)}})
+					return
+				}
+				if v := cl.Snapshot().Replies[got-1].Val; !bytes.Equal(v.Raw, reply) {
+					c.Violate(Violation{Class: "reply-bytes-altered", Shape: "after-timeout/" + phase,
+						Detail:  fmt.Sprintf("request sent %s: client got %s, its backend answered %s", phase, Q(v.Raw), Q(reply)),
+						Witness: map[string]interface{}{"request": Q(raw), "planned_reply": Q(reply)}})
+					return
+				}
+				c.Count("reply_bytes_compared", int64(len(reply)))
+				script.Forget(key)
+			}
+		}
+		verify("after the timeout error", 4)
+		g.Open() // the late reply of the timed-out request
+		env.Barrier()
+		verify("after the late backend reply", 6)
+		cl.Close()
+		script.Forget(stalled)
+	}
 }
